@@ -3,12 +3,12 @@ from gosym.check import Task
 
 ID = 'C06'
 PKG = 'pkg/frame'
-HARNESS_FILES = ['pkg/frame/zz_verif_common.go', 'pkg/frame/zz_verif_c06.go', 'pkg/frame/zz_verif_c01.go', 'pkg/frame/zz_verif_dialect.go',
+HARNESS_FILES = ['pkg/frame/zz_verif_common.go', 'pkg/frame/zz_verif_c06.go', 'pkg/frame/zz_verif_c06w.go', 'pkg/frame/zz_verif_c01.go', 'pkg/frame/zz_verif_dialect.go',
                  'pkg/frame/zz_verif_c02.go', 'pkg/frame/zz_verif_c05.go', 'pkg/frame/zz_verif_export.go',
                  'pkg/frame/zz_verif_msgs.go', 'pkg/streamwriter/zz_verif_c09.go', 'zz_verif_node.go', 'zz_verif_c10.go']
 KERNEL_PKGS = ['.']
 NATIVE_ROOT_PREFIXES = ('verifHarness_C06_', 'verifHarness_C09_', 'verifHarness_C01_')
-CLOCK_PKGS = ['pkg/streamwriter']
+CLOCK_PKGS = ['pkg/streamwriter', 'pkg/frame']
 ROOTS = ['verifHarness_C06', 'verifHarness_C09_step', 'verifHarness_C01_v2']
 ALLOW = 'bufio,io,encoding/binary,errors,bytes'
 INITS = 'io,bufio,errors,github.com/bluenviron/gomavlib/v3/pkg/message'
@@ -34,6 +34,8 @@ def tasks(tier):
     # (c) the frame writer emits the whole 13-byte signature block for the largest frames
     for n in (254, 255):
         ts.append(Task('verifHarness_C01_v2', [n, 1, 0]))
+    for shape in range(4):
+        ts.append(Task('verifHarness_C06_writemessage', [shape], {'x25_uf': True}))
     # (d) the node hands its keys to each channel's reader and writer
     for version in (1, 2):
         for ik in (0, 1):
@@ -43,7 +45,7 @@ def tasks(tier):
 
 
 def required_reach(tier):
-    return ['C06/a', 'C06/b', 'C09/S', 'C06/d']
+    return ['C06/a', 'C06/b', 'C09/S', 'C06/c', 'C06/d']
 
 
 def bounds(tier):
